@@ -127,8 +127,12 @@ func (dht *IpfsDHT) optimisticProvide(outerCtx context.Context, keyMH multihash.
 		return err
 	}
 
-	// initialize context that finishes when this function returns
-	innerCtx, innerCtxCancel := context.WithCancel(outerCtx)
+	// initialize context that finishes when this function returns. It must not
+	// be derived from outerCtx: it would be done whenever outerCtx is, and the
+	// select below would then pick the "we have returned" case half of the time
+	// for a context that is already cancelled when we get here - the put
+	// operations would go ahead and we would wait for them.
+	innerCtx, innerCtxCancel := context.WithCancel(context.Background())
 	defer innerCtxCancel()
 
 	go func() {
